@@ -52,6 +52,8 @@ def obligations(ctx, tier):
                                   arith.reps(A, "TT", (lambda A=A: lambda W, env: ("val", W.wrap(A, abs(env[0].v - env[1].v))))()))
                 out += core.g_row(K, PROP, inh(A, "midpoint"),
                                   arith.reps(A, "TT", (lambda A=A: lambda W, env: ("val", W.wrap(A, (env[0].v + env[1].v) // 2)))()))
+            out += core.g_row(K, PROP, inh(A, "unchecked_add"), arith.reps(A, "TT", arith.unchecked_expect(A, lambda W, a, b: a + b)))
+            out += core.g_row(K, PROP, inh(A, "unchecked_sub"), arith.reps(A, "TT", arith.unchecked_expect(A, lambda W, a, b: a - b)))
             # carry-in forms
             out += core.g_row(K, PROP, inh(A, "carrying_add"),
                               arith.reps(A, "TTb", arith.form_expect("overflowing", A, lambda W, a, b, c: a + b + int(c), None, K.debug)))
